@@ -121,7 +121,8 @@ mutant("c17-novalid-never", ["C17"], (R, "        if sets.is_empty() {\n        
 neutral("parse-original-shadow", ["C17"], (L, "        let original = input.as_ref();\n        let mut input = original;\n\n        if input.len() > MAX_LENGTH {", "        let original: &str = input.as_ref();\n        let mut input: &str = <&str>::clone(&original);\n\n        if original.len() > MAX_LENGTH {"))
 
 # ---- C06
-mutant("c06-unwrap-in-desugar", ["C06"], (R, "        partial => BoundSet::exact(partial.into()),\n    })\n    .context(\"plain version range (ex: 1.2)\")", "        partial => Some(BoundSet::exact(partial.into()).unwrap()),\n    })\n    .context(\"plain version range (ex: 1.2)\")"))
+mutant("c06-unwrap-in-hyphen", ["C06"], (R, "        Ok(BoundSet::new(\n            Bound::Lower(Predicate::Including(lower.into())),\n            Bound::Upper(upper),\n        ))", "        Ok(Some(BoundSet::new(\n            Bound::Lower(Predicate::Including(lower.into())),\n            Bound::Upper(upper),\n        ).unwrap()))"))
+neutral("exact-unwrap-never-fails", ["C06"], (R, "        partial => BoundSet::exact(partial.into()),\n    })\n    .context(\"plain version range (ex: 1.2)\")", "        partial => Some(BoundSet::exact(partial.into()).unwrap()),\n    })\n    .context(\"plain version range (ex: 1.2)\")"))
 mutant("c06-separator-space0", ["C06"], (R, "        separated(0.., simple, space1),", "        separated(0.., simple, space0),"))
 mutant("c06-recursion", ["C06"], (R, "        self.0.iter().filter_map(BoundSet::min_version).min()", "        self.0.iter().filter_map(BoundSet::min_version).min().or_else(|| self.min_version())"))
 mutant("c06-index-vec", ["C06"], (R, "        self.0.iter().filter_map(BoundSet::min_version).min()", "        self.0[0].min_version()"))
